@@ -100,7 +100,7 @@ func (m *verifRouteModel) exec(chg string) {
 // VerifRoutes: all pairs of route sets.
 func VerifRoutes() {
 	N, _ := strconv.Atoi(vf.Param("N", "2"))
-	vf.Assumption("routes are drawn from 4 destinations (default, /16, /24, host) x 3 next hops; the device may have several routes to one destination; device lines in 'ip route show' spelling (plain, with 'dev eth0') plus one kernel/link-scope line that must be ignored")
+	vf.Assumption("routes are drawn from 4 destinations (default, /16, /24, host) x 3 next hops; device and target may have several routes to one destination; device lines in 'ip route show' spelling (plain, with 'dev eth0') plus one kernel/link-scope line that must be ignored")
 	n := vf.Int("n", 0, N)
 	m := vf.Int("m", 0, N)
 	var A, B []verifRoute
@@ -122,8 +122,8 @@ func VerifRoutes() {
 		t := "b" + strconv.Itoa(i)
 		r := verifRoute{d: vf.Int(t+".dst", 0, len(verifDst)-1), h: vf.Int(t+".hop", 0, len(verifHop)-1)}
 		for _, x := range B {
-			// Netspoc generates one route per destination
-			vf.Assume(vf.Not(vf.TermBool(vf.EqInt(x.d, r.d))))
+			// a route is listed once; several routes to one destination are allowed
+			vf.Assume(vf.Not(verifSame(x, r)))
 		}
 		B = append(B, r)
 		bLines = append(bLines, verifSpocLine(r, vf.Bool(t+".slash32")))
